@@ -283,6 +283,9 @@ func (fr *Frame) applyContract(fc *FuncContract, key string, sig *types.Signatur
 		}
 		env.vars[names[i]] = Binding{a, ty}
 	}
+	if (fc.Extern || fc.AssumeOnly) && g.dry == 0 {
+		g.obls = append(g.obls, &Obligation{Name: fr.oname("cover@"+site, "before"), Kind: "cover", Func: g.fnName, Prefix: g.sc.Len(), Reach: c.reach, Goal: "true", Cover: true})
+	}
 	old := c.st.clone()
 	env.old = old
 	floor := fmt.Sprintf("(+ %s %d)", g.curBase, g.allocN)
@@ -463,17 +466,7 @@ func (fr *Frame) havocLoc(env *Env, loc Expr, st *State) {
 		if strings.HasPrefix(l.Sel, "$") {
 			base, _ := pre.tr(l.X)
 			key, es, _ := g.ghostField(l.Sel)
-			var a string
-			switch base.Sort {
-			case SRef:
-				a = base.S
-			case SIface:
-				a = "(iref " + base.S + ")"
-			case SSlice:
-				a = "(sarr " + base.S + ")"
-			default:
-				g.fail("ghost location on sort %s", base.Sort)
-			}
+			a := pre.ghostBase(base, l.X, l.Sel)
 			g.writeCell(st, key, es, a, g.sc.Fresh(key, es).S)
 			return
 		}
